@@ -114,7 +114,7 @@ pub fn run_extra(kind: &str, l: &[Sx]) -> String {
         "re" | "rex" => crate::oracles::re_case(l),
         "relit" => crate::oracles::relit_case(l),
         "reinv" => crate::oracles::reinv_case(l),
-        "script" => script_case(l),
+        "script" | "script0" => script_case(l),
         "foldcall" => foldcall_case(l),
         "hashclass" => hashclass_case(l),
         "poscoh" => crate::oracles::poscoh(l),
@@ -652,7 +652,7 @@ fn script_case(l: &[Sx]) -> String {
             let uses_impure = text.starts_with("random") || text.starts_with("choice");
             // (a value before must be the same value after; an error before may legitimately differ - the if_then/3 rewrite of C05)
             let fold = if st.is_ok() && !uses_impure && r.is_ok() { if show_res(&r) == show_res(&r2) { "holds" } else { "FAILS" } } else { "n/a" };
-            format!("R={} ## fold={}", if uses_impure { "impure".to_string() } else { show_res(&r) }, fold)
+            format!("R={} A={} ## fold={}", if uses_impure { "impure".to_string() } else { show_res(&r) }, if uses_impure { "impure".to_string() } else { show_res(&r2) }, fold)
         }
     }
 }
